@@ -118,7 +118,13 @@ func instrIndex(in ssa.Instruction) int {
 // dominates: a executes before b on every path reaching b (same function).
 func dominates(a, b ssa.Instruction) bool {
 	if a.Parent() != b.Parent() {
-		return false
+		// virtually inlined helpers: a dominates b iff no path from the common region's entry reaches b avoiding a
+		ra, rb := regionRoot(a.Parent()), regionRoot(b.Parent())
+		if ra != rb || a == b {
+			return false
+		}
+		return pathAvoiding(ra, nil, func(x ssa.Instruction) bool { return x == b }, func(x ssa.Instruction) bool { return x == a }) == nil &&
+			pathAvoiding(ra, nil, func(x ssa.Instruction) bool { return x == b }, nil) != nil
 	}
 	if a.Block() == b.Block() {
 		return instrIndex(a) < instrIndex(b)
@@ -141,6 +147,8 @@ func pathAvoidingE(fn *ssa.Function, from ssa.Instruction, isTarget, isCut func(
 	}
 	var work []start
 	visited := map[*ssa.BasicBlock]bool{}
+	type contKey struct{ call *ssa.Call }
+	visitedCont := map[contKey]bool{}
 	if from == nil {
 		if len(fn.Blocks) == 0 {
 			return nil
@@ -156,12 +164,33 @@ func pathAvoidingE(fn *ssa.Function, from ssa.Instruction, isTarget, isCut func(
 		cut := false
 		for i := s.i; i < len(s.b.Instrs); i++ {
 			in := s.b.Instrs[i]
+			if _, isRet := in.(*ssa.Return); isRet && s.b.Parent() != fn {
+				// return of a virtually inlined helper: control continues after its only call site
+				if call := inlinedInto(s.b.Parent()); call != nil {
+					key := contKey{call}
+					if !visitedCont[key] {
+						visitedCont[key] = true
+						work = append(work, start{call.Block(), instrIndex(call) + 1})
+					}
+				}
+				cut = true
+				break
+			}
 			if isCut != nil && isCut(in) {
 				cut = true
 				break
 			}
 			if isTarget(in) {
 				return in
+			}
+			if g := inlinedCallee(in); g != nil && len(g.Blocks) > 0 {
+				// descend into the helper; the rest of this block is continued from the helper's returns
+				if !visited[g.Blocks[0]] {
+					visited[g.Blocks[0]] = true
+					work = append(work, start{g.Blocks[0], 0})
+				}
+				cut = true
+				break
 			}
 		}
 		if cut {
@@ -183,7 +212,11 @@ func pathAvoidingE(fn *ssa.Function, from ssa.Instruction, isTarget, isCut func(
 // reaches: some path from just after a reaches b.
 func reaches(a, b ssa.Instruction) bool {
 	if a.Parent() != b.Parent() {
-		return false
+		ra, rb := regionRoot(a.Parent()), regionRoot(b.Parent())
+		if ra != rb {
+			return false
+		}
+		return pathAvoiding(ra, a, func(x ssa.Instruction) bool { return x == b }, nil) != nil
 	}
 	return pathAvoiding(a.Parent(), a, func(in ssa.Instruction) bool { return in == b }, nil) != nil
 }
@@ -199,6 +232,9 @@ func isExit(in ssa.Instruction) bool {
 
 // inLoop: the block can reach itself.
 func inLoop(b *ssa.BasicBlock) bool {
+	if call := inlinedInto(b.Parent()); call != nil && inLoop(call.Block()) {
+		return true // the helper's only call site is in a loop
+	}
 	seen := map[*ssa.BasicBlock]bool{}
 	var work []*ssa.BasicBlock
 	work = append(work, b.Succs...)
@@ -218,12 +254,83 @@ func inLoop(b *ssa.BasicBlock) bool {
 }
 
 // allInstrs iterates over every instruction of fn.
-func allInstrs(fn *ssa.Function, f func(ssa.Instruction)) {
+// allInstrsLocal visits the instructions of fn itself.
+func allInstrsLocal(fn *ssa.Function, f func(ssa.Instruction)) {
 	for _, b := range fn.Blocks {
 		for _, in := range b.Instrs {
 			f(in)
 		}
 	}
+}
+
+// allInstrs visits the instructions of fn and, once anchors are resolved, of the private helpers it calls synchronously at
+// their only call site (virtual inlining, normalize.go). Return instructions of such helpers are not visited: they are not
+// exits of fn.
+func allInstrs(fn *ssa.Function, f func(ssa.Instruction)) {
+	allInstrsDepth(fn, f, 0)
+}
+
+func allInstrsDepth(fn *ssa.Function, f func(ssa.Instruction), depth int) {
+	for _, b := range fn.Blocks {
+		for _, in := range b.Instrs {
+			if depth > 0 {
+				if _, isRet := in.(*ssa.Return); isRet {
+					continue
+				}
+			}
+			f(in)
+			if g := inlinedCallee(in); g != nil && depth < 4 {
+				allInstrsDepth(g, f, depth+1)
+			}
+		}
+	}
+}
+
+// inlinedCallee: in is the one and only call (synchronous) of a private helper: the helper whose body is treated as part of
+// the caller.
+func inlinedCallee(in ssa.Instruction) *ssa.Function {
+	w := crossWorld
+	if w == nil {
+		return nil
+	}
+	call, ok := in.(*ssa.Call)
+	if !ok {
+		return nil
+	}
+	g := staticCallee(call)
+	if g == nil || g == in.Parent() {
+		return nil
+	}
+	if s := w.soleSite(g); s != nil && s == ssa.CallInstruction(call) {
+		return g
+	}
+	return nil
+}
+
+// inlinedInto: the call through which fn is virtually inlined into its only caller, or nil.
+func inlinedInto(fn *ssa.Function) *ssa.Call {
+	w := crossWorld
+	if w == nil || fn.Parent() != nil {
+		return nil
+	}
+	if s := w.soleSite(fn); s != nil {
+		if call, ok := s.(*ssa.Call); ok && call.Parent() != fn {
+			return call
+		}
+	}
+	return nil
+}
+
+// regionRoot: the function whose virtual body contains fn (fn itself when it is not inlined anywhere).
+func regionRoot(fn *ssa.Function) *ssa.Function {
+	for i := 0; i < 6; i++ {
+		c := inlinedInto(fn)
+		if c == nil {
+			break
+		}
+		fn = c.Parent()
+	}
+	return fn
 }
 
 // calls returns the call instructions (call, go, defer) in fn whose callee name satisfies pred.
@@ -359,7 +466,7 @@ func freeVarBinding(fv *ssa.FreeVar) ssa.Value {
 	}
 	var res ssa.Value
 	n := 0
-	allInstrs(parent, func(in ssa.Instruction) {
+	allInstrsLocal(parent, func(in ssa.Instruction) {
 		if mc, ok := in.(*ssa.MakeClosure); ok && mc.Fn == fn {
 			n++
 			res = mc.Bindings[idx]
@@ -399,6 +506,19 @@ func origin(v ssa.Value) ssa.Value {
 			return v
 		case *ssa.FreeVar:
 			if b := freeVarBinding(x); b != nil {
+				v = b
+				continue
+			}
+			return v
+		case *ssa.Parameter:
+			// parameter of a private helper: the argument it stands for (normalize.go)
+			if b := crossParameter(x); b != nil {
+				v = b
+				continue
+			}
+			return v
+		case *ssa.Call, *ssa.Extract:
+			if b := crossResult(v); b != nil {
 				v = b
 				continue
 			}
@@ -585,6 +705,9 @@ func descDepth(v ssa.Value, d int) string {
 	case *ssa.Convert:
 		return "conv<" + types.TypeString(x.Type(), shortQual) + ">(" + descDepth(x.X, d+1) + ")"
 	case *ssa.Call:
+		if s, ok := pureHelperDesc(x, 0, d); ok && x.Call.Signature().Results().Len() == 1 {
+			return s
+		}
 		var args []string
 		for _, a := range x.Call.Args {
 			args = append(args, descDepth(a, d+1))
@@ -598,6 +721,11 @@ func descDepth(v ssa.Value, d int) string {
 		}
 		return n + "(" + strings.Join(args, ", ") + ")"
 	case *ssa.Extract:
+		if call, ok := x.Tuple.(*ssa.Call); ok {
+			if s, ok := pureHelperDesc(call, x.Index, d); ok {
+				return s
+			}
+		}
 		return descDepth(x.Tuple, d+1) + "#" + fmt.Sprint(x.Index)
 	case *ssa.Slice:
 		s := descDepth(x.X, d+1) + "["
@@ -795,6 +923,12 @@ func factsAt(in ssa.Instruction) []EdgeFact {
 	for i := range fs {
 		fs[i] = normFact(fs[i])
 	}
+	// code of a private helper used at one place is also guarded by what guards that place
+	if w := crossWorld; w != nil && in.Parent().Parent() == nil {
+		if s := w.soleSite(in.Parent()); s != nil && s.Parent() != in.Parent() {
+			fs = append(fs, factsAt(s)...)
+		}
+	}
 	return fs
 }
 
@@ -913,4 +1047,329 @@ func closureOnlyReads(mc *ssa.MakeClosure, cell ssa.Value) bool {
 		}
 	}
 	return true
+}
+
+// pureHelperDesc: "symbolic inlining" of values. call is a static call of a function of the analysed package whose result
+// idx is, on every return that does not report an error, one and the same pure expression over its parameters
+// (parameters, constants, conversions, arithmetic, len/cap). The description of that expression is returned with the
+// call's arguments substituted, so `size, err := messageSize(data)` describes size as conv<uint32>(len(param:data)).
+func pureHelperDesc(call *ssa.Call, idx int, d int) (string, bool) {
+	f := staticCallee(call)
+	if f == nil || f.Blocks == nil || f.Pkg == nil || f.Pkg.Pkg.Path() != rootPath || d > 8 {
+		return "", false
+	}
+	res := f.Signature.Results()
+	if idx >= res.Len() {
+		return "", false
+	}
+	errIdx := -1
+	if n := res.Len(); n > 1 && types.TypeString(res.At(n-1).Type(), nil) == "error" && idx != n-1 {
+		errIdx = n - 1
+	}
+	var pure func(v ssa.Value, depth int) bool
+	pure = func(v ssa.Value, depth int) bool {
+		if depth > 6 {
+			return false
+		}
+		switch x := v.(type) {
+		case *ssa.Parameter:
+			return x.Parent() == f
+		case *ssa.Const:
+			return true
+		case *ssa.Convert:
+			return pure(x.X, depth+1)
+		case *ssa.ChangeType:
+			return pure(x.X, depth+1)
+		case *ssa.BinOp:
+			return pure(x.X, depth+1) && pure(x.Y, depth+1)
+		case *ssa.Call:
+			if b, ok := x.Call.Value.(*ssa.Builtin); ok && (b.Name() == "len" || b.Name() == "cap") {
+				return pure(x.Call.Args[0], depth+1)
+			}
+		}
+		return false
+	}
+	out := ""
+	n := 0
+	okAll := true
+	allInstrsLocal(f, func(in ssa.Instruction) {
+		ret, isR := in.(*ssa.Return)
+		if !isR || idx >= len(ret.Results) {
+			return
+		}
+		if errIdx >= 0 && !isNilConst(ret.Results[errIdx]) {
+			return // a return that reports an error: the caller does not use the other results
+		}
+		for _, leaf := range phiLeaves(ret.Results[idx]) {
+			if !pure(leaf, 0) {
+				okAll = false
+				return
+			}
+			s := descDepth(leaf, d+1)
+			if n > 0 && s != out {
+				okAll = false
+			}
+			out = s
+			n++
+		}
+	})
+	if !okAll || n == 0 {
+		return "", false
+	}
+	// substitute the arguments (longest parameter names first so that no name is a prefix of a remaining one)
+	type sub struct{ from, to string }
+	var subs []sub
+	for i, p := range f.Params {
+		if i < len(call.Call.Args) {
+			subs = append(subs, sub{"param:" + p.Name(), descDepth(call.Call.Args[i], d+1)})
+		}
+	}
+	sort.Slice(subs, func(i, j int) bool { return len(subs[i].from) > len(subs[j].from) })
+	// two-phase replacement to avoid re-substituting inside substituted text
+	for i, sb := range subs {
+		out = strings.ReplaceAll(out, sb.from, fmt.Sprintf("\x00%d\x00", i))
+	}
+	for i, sb := range subs {
+		out = strings.ReplaceAll(out, fmt.Sprintf("\x00%d\x00", i), sb.to)
+	}
+	return out, true
+}
+
+// ---------- interprocedural lifting of path predicates (robustness against extracted helpers) ----------
+
+// helperCallee: in is a synchronous static call (not go/defer) of a function of the analysed package that has a body.
+func helperCallee(in ssa.Instruction) *ssa.Function {
+	call, ok := in.(*ssa.Call)
+	if !ok {
+		return nil
+	}
+	f := staticCallee(call)
+	if f == nil || f.Blocks == nil {
+		return nil
+	}
+	top := f
+	for top.Parent() != nil {
+		top = top.Parent()
+	}
+	if top.Origin() != nil {
+		top = top.Origin()
+	}
+	if top.Pkg == nil || top.Pkg.Pkg.Path() != rootPath {
+		return nil
+	}
+	return f
+}
+
+// mustExecute: every path from the entry of f to a return executes an instruction satisfying pred, directly or
+// inside a helper it calls synchronously (depth-bounded; recursion gives false).
+func mustExecute(f *ssa.Function, pred func(ssa.Instruction) bool, depth int) bool {
+	if depth > 3 || f.Blocks == nil {
+		return false
+	}
+	isRet := func(in ssa.Instruction) bool { _, ok := in.(*ssa.Return); return ok }
+	cut := func(in ssa.Instruction) bool {
+		if pred(in) {
+			return true
+		}
+		if g := helperCallee(in); g != nil && g != f {
+			return mustExecute(g, pred, depth+1)
+		}
+		return false
+	}
+	return pathAvoiding(f, nil, isRet, cut) == nil
+}
+
+// mustCut lifts a cut predicate: an instruction cuts when it satisfies pred or is a synchronous call of a helper that
+// executes such an instruction on every path.
+func mustCut(pred func(ssa.Instruction) bool) func(ssa.Instruction) bool {
+	return func(in ssa.Instruction) bool {
+		if pred(in) {
+			return true
+		}
+		if g := helperCallee(in); g != nil {
+			return mustExecute(g, pred, 1)
+		}
+		return false
+	}
+}
+
+// mayExecute: some path through f executes an instruction satisfying pred (directly or in a synchronous helper).
+func mayExecute(f *ssa.Function, pred func(ssa.Instruction) bool, depth int) bool {
+	if depth > 3 || f.Blocks == nil {
+		return false
+	}
+	found := false
+	allInstrsLocal(f, func(in ssa.Instruction) {
+		if found {
+			return
+		}
+		if pred(in) {
+			found = true
+			return
+		}
+		if g := helperCallee(in); g != nil && g != f && mayExecute(g, pred, depth+1) {
+			found = true
+		}
+	})
+	return found
+}
+
+// mustPrecede: on every path to target, an instruction satisfying pred has been executed before, either in target's own
+// function (dominating it) or inside a helper whose call dominates it and which executes it on every path.
+// Returns the dominating instruction found (the instruction itself or the helper call).
+func mustPrecede(target ssa.Instruction, pred func(ssa.Instruction) bool) ssa.Instruction {
+	fn := target.Parent()
+	var found ssa.Instruction
+	lifted := mustCut(pred)
+	allInstrs(fn, func(in ssa.Instruction) {
+		if found != nil || in == target {
+			return
+		}
+		if lifted(in) && dominates(in, target) {
+			found = in
+		}
+	})
+	return found
+}
+
+// onlyViaOnce: fn runs only as (part of) the function given to a sync.Once.Do: it is the literal passed to Do, a method
+// whose bound-method value is passed to Do, or a helper all of whose call sites are in such functions.
+func (w *World) onlyViaOnce(fn *ssa.Function, depth int) bool {
+	if depth > 3 {
+		return false
+	}
+	isDoArg := func(target *ssa.Function) bool {
+		n, all := 0, true
+		for _, g := range w.Funcs {
+			allInstrsLocal(g, func(in ssa.Instruction) {
+				mc, ok := in.(*ssa.MakeClosure)
+				if !ok || mc.Fn != ssa.Value(target) {
+					return
+				}
+				n++
+				used := false
+				for _, r := range *mc.Referrers() {
+					if ci, isC := r.(*ssa.Call); isC && calleeName(ci) == "(*sync.Once).Do" {
+						used = true
+					} else if _, isD := r.(*ssa.DebugRef); !isD {
+						all = false
+					}
+				}
+				if !used {
+					all = false
+				}
+			})
+		}
+		return n > 0 && all
+	}
+	if fn.Parent() != nil && isDoArg(fn) {
+		return true
+	}
+	sites := w.callSitesOf(fn)
+	// bound-method wrappers are synthetic: look for them among the call graph's callers
+	var boundWrappers []*ssa.Function
+	if n := w.CG.Nodes[fn]; n != nil {
+		for _, e := range n.In {
+			if e.Caller != nil && e.Caller.Func != nil && strings.Contains(e.Caller.Func.Synthetic, "bound method wrapper") {
+				boundWrappers = append(boundWrappers, e.Caller.Func)
+			}
+		}
+	}
+	if len(sites) == 0 && len(boundWrappers) == 0 {
+		return false
+	}
+	for _, bw := range boundWrappers {
+		if !isDoArg(bw) {
+			return false
+		}
+	}
+	for _, s := range sites {
+		if _, isCall := s.(*ssa.Call); !isCall {
+			return false
+		}
+		if !w.onlyViaOnce(s.Parent(), depth+1) {
+			return false
+		}
+	}
+	return true
+}
+
+// helperClosure: fn together with the helpers that were (or could have been) extracted from it: functions of the
+// analysed package that fn's closure calls synchronously and ALL of whose call sites lie inside the closure.
+func (w *World) helperClosure(fn *ssa.Function) []*ssa.Function {
+	out := []*ssa.Function{fn}
+	in := map[*ssa.Function]bool{fn: true}
+	for changed, rounds := true, 0; changed && rounds < 4; rounds++ {
+		changed = false
+		for _, f := range append([]*ssa.Function{}, out...) {
+			allInstrsLocal(f, func(x ssa.Instruction) {
+				g := helperCallee(x)
+				if g == nil || in[g] || g.Parent() != nil {
+					return
+				}
+				private := true
+				sites := w.callSitesOf(g)
+				for _, s := range sites {
+					if !in[s.Parent()] {
+						private = false
+					}
+					if _, isCall := s.(*ssa.Call); !isCall {
+						private = false
+					}
+				}
+				if private && len(sites) > 0 {
+					in[g] = true
+					out = append(out, g)
+					changed = true
+				}
+			})
+		}
+	}
+	return out
+}
+
+// coreWith: the function of fn's helper closure that directly contains an instruction satisfying pred (fn itself when it
+// does, or when none or several do).
+func (w *World) coreWith(fn *ssa.Function, pred func(ssa.Instruction) bool) *ssa.Function {
+	var hits []*ssa.Function
+	for _, f := range w.helperClosure(fn) {
+		has := false
+		allInstrsLocal(f, func(in ssa.Instruction) {
+			if pred(in) {
+				has = true
+			}
+		})
+		if has {
+			hits = append(hits, f)
+		}
+	}
+	if len(hits) == 1 {
+		return hits[0]
+	}
+	return fn
+}
+
+// returnLeavesOfCall: v is (an Extract of) a synchronous call of a helper of the analysed package: the values the helper
+// can return at that result index (phis expanded). ok == false for anything else.
+func returnLeavesOfCall(v ssa.Value) (leaves []ssa.Value, callee *ssa.Function, ok bool) {
+	idx := 0
+	var call *ssa.Call
+	switch x := v.(type) {
+	case *ssa.Extract:
+		call, _ = x.Tuple.(*ssa.Call)
+		idx = x.Index
+	case *ssa.Call:
+		call = x
+	}
+	if call == nil {
+		return nil, nil, false
+	}
+	f := helperCallee(call)
+	if f == nil {
+		return nil, nil, false
+	}
+	forEachReturnValue(f, idx, func(rv ssa.Value, at ssa.Instruction) {
+		leaves = append(leaves, phiLeaves(rv)...)
+	})
+	return leaves, f, len(leaves) > 0
 }
